@@ -185,10 +185,10 @@ def c_matchDeton(chk):
             chk.undecided.append("matchDeton: expected exactly one root_scalar call")
             continue
         e = evs[0]
-        Tm = e["root"]
+        Tm = e["generic_x"]
         pH, pL, eH, eL = H["p"](Tn), L["p"](Tm), H["e"](Tn), L["e"](Tm)
         chk.vc(f"matchDeton.brentq.residual.path{i}", p.pc + [Ne(eH + pL, 0)],
-               Eq(e["froot"] * (eH + pL), vw**2 * (eH - eL) * (eH + pL) - (pH - pL) * (eL + pH)), func=fn)
+               Eq(e["generic_f"] * (eH + pL), vw**2 * (eH - eL) * (eH + pL) - (pH - pL) * (eL + pH)), func=fn)
         chk.vc(f"matchDeton.brentq.tolerances.path{i}", p.pc,
                And(Eq(e["xtol"], real("atol")), Eq(e["rtol"], real("rtol")), Eq(e["a"], Tn)), func=fn)
 
